@@ -34,7 +34,9 @@ Inductive pstep :=
 | SInit (committed : bool) (v : N) (dA dB dA2 : N)
 | STok (committed : bool) (o : top) (errA : option err) (dA dB dA2 : N)
 | SProbe (seen : N) (dA dB dA2 : N)
-| SQuery (dA dB dA2 : N).       (* any query: metadata, predictFee, balances *)
+| SQuery (dA dB dA2 : N)        (* any query: metadata, predictFee, balances *)
+| SClock (dEarly dLate : N).    (* one proposal whose verdict depends on its time, sent with a timestamp before and with one
+                                   after the deadline (both long past on the machine's own clock): the two replies differ *)
 
 Inductive case := PCase (issuer feesetter feeaddrsetter : N) (uids : list (N * N)) (init : list (N * N * N * Z)) (steps : list pstep).
 
@@ -50,6 +52,7 @@ Fixpoint m_steps (env : tenv) (l : pledger) (m : @pmem N tmeta) (steps : list ps
     let '((_, c, _), m') := p_inv env true true m l PProbeCfg in
     N.eqb c seen && m_steps env l m' t
   | SQuery _ _ _ :: t => m_steps env l m t
+  | SClock _ _ :: t => m_steps env l m t
   end.
 
 Definition corr (c : case) : bool :=
@@ -58,10 +61,11 @@ Definition corr (c : case) : bool :=
   end.
 
 Definition digests (s : pstep) : N * N * N :=
-  match s with SInit _ _ a b c | STok _ _ _ a b c | SProbe _ a b c | SQuery a b c => (a, b, c) end.
+  match s with SInit _ _ a b c | STok _ _ _ a b c | SProbe _ a b c | SQuery a b c => (a, b, c) | SClock a _ => (a, a, a) end.
 Definition holds (c : case) : bool :=
   match c with
-  | PCase _ _ _ _ _ steps => forallb (fun s => let '(a, b, c2) := digests s in N.eqb a b && N.eqb a c2) steps
+  | PCase _ _ _ _ _ steps => forallb (fun s => let '(a, b, c2) := digests s in N.eqb a b && N.eqb a c2 &&
+                                               match s with SClock e l => negb (N.eqb e l) | _ => true end) steps
   end.
 
 Definition label (c : case) : N :=
@@ -71,7 +75,7 @@ Definition label (c : case) : N :=
        | SInit true _ _ _ _ => 1 | SInit false _ _ _ _ => 2
        | STok true _ None _ _ _ => 4 | STok true _ (Some _) _ _ _ => 8
        | STok false _ None _ _ _ => 16 | STok false _ (Some _) _ _ _ => 32
-       | SProbe _ _ _ _ => 64 | SQuery _ _ _ => 128 end) 0%N steps
+       | SProbe _ _ _ _ => 64 | SQuery _ _ _ => 128 | SClock _ _ => 256 end) 0%N steps
   end.
 
 Fixpoint d_steps (n : N) (env : tenv) (l : pledger) (m : @pmem N tmeta) (steps : list pstep) : option (N * option err * option err * N * N) :=
@@ -87,6 +91,7 @@ Fixpoint d_steps (n : N) (env : tenv) (l : pledger) (m : @pmem N tmeta) (steps :
     let '((_, c, _), m') := p_inv env true true m l PProbeCfg in
     if N.eqb c seen then d_steps (n + 1)%N env l m' t else Some (n, None, None, seen, c)
   | SQuery _ _ _ :: t => d_steps (n + 1)%N env l m t
+  | SClock _ _ :: t => d_steps (n + 1)%N env l m t
   end.
 Definition diag (c : case) :=
   match c with
